@@ -48,7 +48,13 @@ type renderer struct {
 	opts  RenderOpts
 	out   *[]Seg
 	steps int
+	bytes int  // text emitted so far, content blocks included
+	big   bool // more than maxRefOutput: the render is abandoned as out of domain
 }
+
+// maxRefOutput bounds what the reference renders: loops and content blocks multiply, and a generated program whose
+// output runs to tens of megabytes is outside every budget of the process monitors (it is not judged).
+const maxRefOutput = 8 << 20
 
 type rstate struct {
 	env        *Env
@@ -105,6 +111,10 @@ func (r *renderer) emit(text, prov, node string) {
 	if text == "" {
 		return
 	}
+	if r.bytes += len(text); r.bytes > maxRefOutput {
+		r.big = true
+		return
+	}
 	*r.out = append(*r.out, Seg{text, prov, node})
 }
 
@@ -117,6 +127,9 @@ func (r *renderer) block(s *rstate, ns []Node, newScope bool) Status {
 	for _, n := range ns {
 		if st := r.node(s, n); st != OK {
 			return st
+		}
+		if r.big {
+			return OOD
 		}
 	}
 	return OK
